@@ -56,6 +56,9 @@ def build(spec):
         for n in nodes:
             h.add_node(n)
         mode = spec.get("build", "add-rev" if spec.get("reverse") else "add")
+        if what == "reciprocity" and mode in ("add", "add-rev"):
+            # reachability tables are built while scanning the hyperedges: both insertion orders are explored
+            mode = "add" if S.bool("insertion_order_as_listed") else "add-rev"
         present = build_from_bits(cands, bits, h.add_edge, h.remove_edge, mode)
         if what == "degree":
             fm = spec["fmode"]
